@@ -47,6 +47,9 @@ type Plan struct {
 	Dir    string `json:"dir"` // directory for counters and logs
 	Record bool   `json:"record"`
 	Rules  []Rule `json:"rules"`
+	// RecordStdin: keep a copy of what the children that read object names (rev-list --stdin, cat-file --batch[-check])
+	// receive on stdin, in <dir>/stdin.<signature>.<ordinal>
+	RecordStdin bool `json:"record_stdin"`
 }
 
 type Event struct {
@@ -231,6 +234,15 @@ func main() {
 
 	cmd := exec.Command(real, args...)
 	cmd.Stdin = os.Stdin
+	teeStdin := plan.RecordStdin && (sig == "rev-list" || sig == "cat-file --batch-check" || sig == "cat-file --batch")
+	if teeStdin {
+		if f, err := os.Create(filepath.Join(plan.Dir, fmt.Sprintf("stdin.%s.%d", fileSafe(sig), ord))); err == nil {
+			defer f.Close()
+			cmd.Stdin = io.TeeReader(os.Stdin, f)
+		} else {
+			teeStdin = false
+		}
+	}
 	cmd.Stderr = os.Stderr
 	pr, err := cmd.StdoutPipe()
 	if err != nil {
@@ -316,7 +328,12 @@ func main() {
 		}
 		// whether or not the real output was shorter than planned, terminate abnormally now
 		cmd.Process.Kill()
-		cmd.Wait()
+		if teeStdin {
+			// (cmd.Wait would also wait for the stdin copier, which may sit in a read of our own stdin)
+			cmd.Process.Wait()
+		} else {
+			cmd.Wait()
+		}
 		if rule.Stderr != "" {
 			fmt.Fprint(os.Stderr, rule.Stderr)
 		}
